@@ -458,12 +458,16 @@ def main(tier, seed):
                               stm.Routine.stop, stm.Routine.reset, stm.Condition.wait, stm.Condition.signal,
                               stm.Condition.unhang, stm.FlowVar])
     nops = 3 if tier == 'quick' else 4
-    jobs = [dict(kind='routine', nops=nops, first=[a, b]) for a in range(len(OPS)) for b in range(len(OPS))]
+    # thorough: 4 operations, except for histories that begin with next / send (a running body from the first
+    # operation on: those four families alone exceed 400 000 paths each and are kept at 3)
+    jobs = [dict(kind='routine', nops=(3 if (a in (0, 1) and tier != 'quick') else nops), first=[a, b])
+            for a in range(len(OPS)) for b in range(len(OPS))]
     jobs += [dict(kind='condition', nops=5 if tier == 'quick' else 6, flowvar=f) for f in (0, 1)]
     for r in run_jobs('vf.props.c11', 'job', jobs, 'nrt'):
         chk.add('histories', r)
     chk.require_notes('histories', ['routine', 'condition', 'flowvar'] + ['body:' + b for b in BEHAV])
-    chk.bounds = {'routine_histories': f'{nops} external operations over {OPS}; every body step behaviour from {BEHAV}',
+    chk.bounds = {'routine_histories': f'{nops} external operations over {OPS} (thorough: 3 when the history begins with '
+                                       f'next / send); every body step behaviour from {BEHAV}',
                   'condition_histories': '5/6 operations over play-waiter (<= 2 waiters), signal, test true/false, unhang, '
                                          'scheduler run; FlowVar: play-waiter, signal, set value, run',
                   'outside': 'nesting deeper than 1; play/pause/resume interplay with real-time clocks (C08)'}
